@@ -36,9 +36,10 @@ _state = {'used': set(), 'overrides': {}, 'installed': False}
 
 
 def setup(symbolic):
+    # the import rewrite is needed in replays as well: it is what lets host modules be swapped at import time
+    install_proxies()
     if symbolic:
-        from vxlib.symx import shims, loader
-        loader.install()
+        from vxlib.symx import shims
         shims.install()
 
 
@@ -64,9 +65,26 @@ def kind_of(mod, attr):
 
 
 class RecTable(SymTable):
-    """platform errno table (membership = union of intervals, name = lookup atom)"""
+    """platform table (membership = union of intervals, name = lookup atom); records being consulted"""
     sx_name = 'errno'
     sx_small = 0
+
+    def _rec(self):
+        k = getattr(self, '_sx_kind', None)
+        if k is not None:
+            _state['used'].add((k, _site()))
+
+    def __contains__(self, k):
+        self._rec()
+        return SymTable.__contains__(self, k)
+
+    def __getitem__(self, k):
+        self._rec()
+        return SymTable.__getitem__(self, k)
+
+    def get(self, k, d=None):
+        self._rec()
+        return SymTable.get(self, k, d)
 
 
 class RecInt(int):
@@ -95,6 +113,8 @@ class HostModule(types.ModuleType):
             val = ov[kind]
         else:
             val = platform_a(real.__name__, name, val)
+        if isinstance(val, type) and issubclass(val, enum.Enum):
+            _state.setdefault('class_kind', {})[id(val)] = kind
         return wrap(kind, val)
 
 
@@ -106,7 +126,9 @@ def wrap(kind, val):
         r._sx_kind = kind
         return r
     if isinstance(val, dict) and not isinstance(val, RecTable):
-        return RecTable(val)
+        t = RecTable(val)
+        t._sx_kind = kind
+        return t
     return val
 
 
@@ -178,15 +200,23 @@ def platform_b(kind, a_value):
     return out
 
 
+def _provider(name, real):
+    """what `import <host module>` / `from <host module> import x` give the repo's modules (loader rewrite)"""
+    px = _state.setdefault('proxies', {})
+    if name not in px:
+        px[name] = HostModule(real)
+    return px[name]
+
+
 def install_proxies():
-    """replace host modules / host objects in the globals of the repo modules (once per process)"""
+    """register the proxy provider; must happen before the repo is imported"""
     if _state['installed']:
         return
     _state['installed'] = True
     import importlib
-    import re
-    import pykdebugparser.traces_parser      # noqa: make sure the handler modules are loaded
-    from vxlib.symx import shims
+    from vxlib.symx import loader
+    loader.install()
+    loader.host_provider[0] = _provider
     hosts = {}
     for m in HOST_MODULES:
         try:
@@ -194,83 +224,104 @@ def install_proxies():
         except ImportError:
             pass
     _state['hosts'] = hosts
-    proxies = {m: HostModule(real) for m, real in hosts.items()}
-    real_errorcode = shims.real('errorcode')
-    direct = {}      # id(host object) -> (module, attr) for objects imported by name
-    for m, real in hosts.items():
-        for attr, val in vars(real).items():
-            if isinstance(val, type) and issubclass(val, enum.Enum):
-                direct[id(val)] = (m, attr)
-    direct[id(real_errorcode)] = ('errno', 'errorcode')
-    _state['direct'] = []
-    for mname, mod in list(sys.modules.items()):
-        if mod is None or not (mname == 'pykdebugparser' or mname.startswith('pykdebugparser.')):
-            continue
+    _state['copies'] = {}
+
+
+def _purge():
+    out = {}
+    for n in list(sys.modules):
+        if n == 'pykdebugparser' or n.startswith('pykdebugparser.'):
+            out[n] = sys.modules.pop(n)
+    return out
+
+
+class _Copy:
+    """a copy of the repo's modules imported under a given set of host overrides"""
+
+    def __init__(self, overrides):
+        self.overrides = overrides
+        saved = _purge()
+        prev_used, prev_ov = _state['used'], _state['overrides']
+        _state['used'] = set()
+        _state['overrides'] = overrides
         try:
-            text = open(getattr(mod, '__file__', '') or '').read()
-        except OSError:
-            text = ''
-        for gname, gval in list(vars(mod).items()):
-            if isinstance(gval, types.ModuleType) and gval.__name__ in proxies and not isinstance(gval, HostModule):
-                setattr(mod, gname, proxies[gval.__name__])
-            elif id(gval) in direct:
-                _state['direct'].append((mod, gname, direct[id(gval)]))
-            elif isinstance(gval, SymTable) and dict(gval) == dict(real_errorcode):
-                _state['direct'].append((mod, gname, ('errno', 'errorcode')))
-            elif isinstance(gval, (int, str)) and not isinstance(gval, bool) and not gname.startswith('_'):
-                # a constant imported by name from a host module (from socket import SOL_SOCKET)
-                for m, real in hosts.items():
-                    if getattr(real, gname, None) == gval and re.search(r'from\s+%s\s+import[^\n]*\b%s\b' % (m, gname), text):
-                        _state['direct'].append((mod, gname, (m, gname)))
-                        break
+            import pykdebugparser.traces_parser      # noqa
+            self.modules = _purge()
+        finally:
+            _purge()
+            sys.modules.update(saved)
+            self.import_used = set(_state['used'])
+            _state['used'], _state['overrides'] = prev_used, prev_ov
+        # which from-imported host objects can be recognised at run time (classes, tables), and as what kind
+        self.objects = {}
+        for m in self.modules.values():
+            for gname, gval in vars(m).items():
+                k = getattr(gval, '_sx_kind', None) if isinstance(gval, (RecTable, RecInt)) else _state.get('class_kind', {}).get(id(gval))
+                if k is not None:
+                    self.objects[id(gval)] = k
+
+    def __enter__(self):
+        self.saved = _purge()
+        sys.modules.update(self.modules)
+        self.prev_ov = _state['overrides']
+        _state['overrides'] = self.overrides
+        return self
+
+    def __exit__(self, *a):
+        _purge()
+        sys.modules.update(self.saved)
+        _state['overrides'] = self.prev_ov
 
 
-def apply(overrides):
-    """make `overrides` (kind -> platform B value) the current host; objects imported by name are rebound"""
-    _state['overrides'] = overrides
-    from vxlib.symx import shims
-    for mod, gname, (m, attr) in _state['direct']:
-        kind = kind_of(m, attr)
-        if kind in overrides:
-            val = overrides[kind]
-        else:
-            real = shims.real('errorcode') if (m, attr) == ('errno', 'errorcode') else getattr(_state['hosts'][m], attr)
-            val = platform_a(m, attr, real)
-        setattr(mod, gname, wrap(kind, val))
+def copy_for(overrides):
+    key = tuple(sorted((k, id(v)) for k, v in overrides.items()))
+    c = _state['copies'].get(key)
+    if c is None:
+        c = _state['copies'][key] = _Copy(overrides)
+    return c
 
 
 def _window(ctx, name, a, r, overrides):
     install_proxies()
+    cp = copy_for(overrides)
     _state['used'] = set()
-    apply(overrides)
     real_call, real_iter = enum.EnumType.__call__, enum.EnumType.__iter__
-    direct_kinds = {}
-    for mod, gname, (m, attr) in _state['direct']:
-        v = getattr(mod, gname)
-        if isinstance(v, type):
-            direct_kinds[id(v)] = kind_of(m, attr)
-        elif isinstance(v, RecTable):
-            v._sx_kind = kind_of(m, attr)
+    class_kind = _state.setdefault('class_kind', {})
 
     def rec_call(cls, value, *aa, **kw):
-        k = direct_kinds.get(id(cls))
+        k = class_kind.get(id(cls))
         if k is not None and not aa and not kw:
             _state['used'].add((k, _site()))
         return real_call(cls, value, *aa, **kw)
 
     def rec_iter(cls):
-        k = direct_kinds.get(id(cls))
+        k = class_kind.get(id(cls))
         if k is not None:
             _state['used'].add((k, _site()))
         return real_iter(cls)
     enum.EnumType.__call__ = rec_call
     enum.EnumType.__iter__ = rec_iter
     try:
-        o = sweep.run_window(ctx, name, a, r)
+        with cp:
+            o = sweep.run_window(ctx, name, a, r)
     finally:
         enum.EnumType.__call__ = real_call
         enum.EnumType.__iter__ = real_iter
-    return o, set(_state['used'])
+    used = set(_state['used'])
+    # host values consumed while the modules were being imported (tables built at import time) cannot be attributed to a
+    # decoder: they count as consulted by every decoder
+    untracked = {(k, s) for k, s in copy_for({}).import_used if not _trackable(k)}
+    return o, used | untracked
+
+
+def _trackable(kind):
+    """a host object bound by name at import whose later use is observable (an enum class or a table)"""
+    v = None
+    try:
+        v = _a_value(kind)
+    except Exception:       # noqa
+        return False
+    return isinstance(v, (type, dict))
 
 
 def _a_value(kind):
@@ -320,7 +371,6 @@ def run(ctx, st):
         for s in sites:
             ctx.check('C18/%s@%s' % (k, s), same, '%s: %s / %s' % (name, o1.text if o1.kind == 'text' and not ctx.symbolic else o1.kind,
                                                                    o2.text if o2.kind == 'text' and not ctx.symbolic else o2.kind))
-    apply({})
     _darwin_values(ctx, name, a, o1)
     ctx.reach()
 
